@@ -10,6 +10,7 @@ import (
 	"fmt"
 	"io"
 	"net"
+	"sync"
 
 	hclog "github.com/hashicorp/go-hclog"
 	"github.com/hashicorp/go-plugin/internal/grpcmux"
@@ -59,6 +60,7 @@ type GRPCServer struct {
 	config      GRPCServerConfig
 	server      *grpc.Server
 	broker      *GRPCBroker
+	brokerLock  sync.Mutex
 	stdioServer *grpcStdioServer
 
 	logger hclog.Logger
@@ -118,6 +120,11 @@ func (s *GRPCServer) Init() error {
 func (s *GRPCServer) Stop() {
 	s.server.Stop()
 
+	// Stop can be called by the Shutdown RPC and by Serve (test mode context
+	// cancellation) at the same time.
+	s.brokerLock.Lock()
+	defer s.brokerLock.Unlock()
+
 	if s.broker != nil {
 		s.broker.Close()
 		s.broker = nil
@@ -128,6 +135,9 @@ func (s *GRPCServer) Stop() {
 // the underlying grpc.Broker if present.
 func (s *GRPCServer) GracefulStop() {
 	s.server.GracefulStop()
+
+	s.brokerLock.Lock()
+	defer s.brokerLock.Unlock()
 
 	if s.broker != nil {
 		s.broker.Close()
